@@ -127,6 +127,8 @@ type WaitStep struct {
 	// "pipelined" = all frames on ONE connection back to back in one write, replies not awaited in between;
 	// "fragmented" = the byte stream of the frames cut at arbitrary places into several writes.
 	Dl string `json:"dl"`
+	// Rep > 1 (pipelined, one code): the request is sent Rep times back to back - a long history of the code.
+	Rep int `json:"rep"`
 }
 
 // WaitWalk is one planned trace on a fresh server.
@@ -187,6 +189,7 @@ type wLabel struct {
 	Wc  []int    `json:"wc"`
 	Cs  []int    `json:"cs"`
 	Dl  string   `json:"dl"`
+	Rep int      `json:"rep"`
 	Rel []string `json:"rel"`
 	N   int      `json:"n"`
 	Pan bool     `json:"pan"`
@@ -409,15 +412,21 @@ func (w *walkRun) settle() (int, [][2]int, error) {
 	return n, by, errors.New("observation does not settle")
 }
 
-func (w *walkRun) requests(cs []int, stagger bool, dl string) error {
+func (w *walkRun) requests(cs []int, stagger bool, dl string, reps int) error {
 	var wg sync.WaitGroup
 	done := make(chan struct{})
 	if dl == "pipelined" || dl == "fragmented" {
 		// one sender, one connection, requests in the given order
 		r := mrand.New(mrand.NewSource(w.rnd.Int63()))
-		codes := make([]byte, len(cs))
-		for i, c := range cs {
-			codes[i] = byte(c)
+		codes := make([]byte, 0, len(cs))
+		for _, c := range cs {
+			codes = append(codes, byte(c))
+		}
+		if reps > 1 && len(cs) == 1 {
+			codes = make([]byte, reps)
+			for i := range codes {
+				codes[i] = byte(cs[0])
+			}
 		}
 		wg.Add(1)
 		go func() {
@@ -425,7 +434,17 @@ func (w *walkRun) requests(cs []int, stagger bool, dl string) error {
 			var pan bool
 			var err error
 			if sr, ok := w.b.(StreamRequester); ok {
-				pan, err = sr.RequestStream(codes, dl, r)
+				// long repetitions travel as several streams of at most 256 frames, one after the other
+				for len(codes) > 0 && err == nil {
+					n := len(codes)
+					if n > 256 {
+						n = 256
+					}
+					var p bool
+					p, err = sr.RequestStream(codes[:n], dl, r)
+					pan = pan || p
+					codes = codes[n:]
+				}
 			} else {
 				for _, c := range codes {
 					p, e := w.b.Request(c, r)
@@ -473,8 +492,8 @@ func (w *walkRun) requests(cs []int, stagger bool, dl string) error {
 	select {
 	case <-done:
 		return nil
-	case <-time.After(40 * time.Second):
-		return errors.New("a request was not dispatched within 40s")
+	case <-time.After(40*time.Second + time.Duration(reps)*2*time.Millisecond):
+		return errors.New("a request was not dispatched in time")
 	}
 }
 
@@ -534,7 +553,7 @@ func runWalk(wk WaitWalk, b WaitBinding, grace, regMs time.Duration, timing bool
 				n, by, err = w.quiesce(2*time.Second, 30*time.Second)
 			}
 		case "request":
-			if err = w.requests(st.Cs, len(st.Cs) > 1, st.Dl); err == nil {
+			if err = w.requests(st.Cs, len(st.Cs) > 1, st.Dl, st.Rep); err == nil {
 				if w.timing {
 					n, by, err = w.observeTiming(expect, watch)
 				} else {
@@ -545,7 +564,7 @@ func runWalk(wk WaitWalk, b WaitBinding, grace, regMs time.Duration, timing bool
 			for k, id := range st.Ws {
 				w.start(id, st.Wc[k], time.Duration(rnd.Intn(400))*time.Microsecond)
 			}
-			if err = w.requests(st.Cs, true, st.Dl); err == nil {
+			if err = w.requests(st.Cs, true, st.Dl, st.Rep); err == nil {
 				if w.timing {
 					n, by, err = w.observeTiming(expect, watch)
 				} else {
@@ -586,6 +605,13 @@ func runWalk(wk WaitWalk, b WaitBinding, grace, regMs time.Duration, timing bool
 		lab := &wLabel{Op: st.Op, Ws: append([]string{}, st.Ws...), Wc: append([]int{}, st.Wc...), Cs: append([]int{}, st.Cs...), Rel: rel, N: n, Pan: pan, Byc: by}
 		sort.Ints(lab.Cs)
 		lab.Dl = st.Dl
+		lab.Rep = st.Rep
+		if lab.Rep <= 0 {
+			lab.Rep = 1
+			if len(st.Cs) == 0 {
+				lab.Rep = 0
+			}
+		}
 		if lab.Dl == "" {
 			lab.Dl = "single"
 			if len(st.Cs) == 0 {
